@@ -1,6 +1,9 @@
 # C04, qpdf-JSON import part: hostile qpdf JSON (v2) documents through QPDF::createFromJSON / QPDF::updateFromJSON in process
 # (the TYPE of whatever is thrown is observed: only QPDFExc / std::runtime_error are documented) and through the CLI
 # (--json-input, --update-from-json: exit 2/3 with a message, never a logic / internal error, signal or sanitizer report).
+# The CLI prints EVERY std::exception as `qpdf: <what>` with exit 2, so the type of an exception is only visible in process:
+# the in-process part is the oracle for "never a logic error", the CLI part for signals, sanitizer reports, hangs and the
+# exit-status / message discipline.
 #
 # Two input families:
 #  (A) documents rendered from an ABSTRACT description - a sequence of "obj:n g R" entries whose members are one of
@@ -169,6 +172,16 @@ def aimed_abstract(mode):
     out.append(("stream-redefined-as-value-then-referenced", doc([((8, 0), [S]), ((8, 0), [D1]), ((9, 0), [ref((8, 0))])])))
     out.append(("two-refs-to-streams", doc([((8, 0), [S]), ((9, 0), [S]), ((10, 0), [ref((8, 0))]), ((11, 0), [ref((9, 0))])])))
     out.append(("ref-other-generation", doc([((8, 0), [S]), ((9, 0), [ref((8, 1))])])))
+    # the flags of an entry across several "stream" members: a new stream must end up with data (C04-F-json-dup-stream)
+    S0 = ("s.11000", '"stream": {"dict": {}}')
+    # (object 8 is made reachable from the catalog, so that writing the document touches it)
+    CAT = [((1, 0), [("d.1", '"value": {"/Type": "/Catalog", "/Pages": "2 0 R", "/X": "8 0 R"}')]),
+           ((2, 0), [("d.1", '"value": {"/Type": "/Pages", "/Kids": [], "/Count": 0}')])]
+    out.append(("new-stream-without-data", doc(CAT + [((8, 0), [S0])])))
+    out.append(("new-stream-twice-without-data", doc(CAT + [((8, 0), [S0, S0])])))
+    out.append(("new-stream-data-in-second-member", doc(CAT + [((8, 0), [S0, S])])))
+    out.append(("new-stream-data-in-first-member", doc(CAT + [((8, 0), [S, S0])])))
+    out.append(("value-then-stream-twice-without-data", doc(CAT + [((8, 0), [D1, S0, S0])])))
     if mode == "u":
         out.append(("ref-to-stream-of-the-file", doc([((9, 0), [ref((4, 0))])])))
         out.append(("file-object-becomes-ref-to-file-stream", doc([((5, 0), [ref((6, 0))])])))
@@ -338,6 +351,21 @@ def hostile_texts(rng, count):
 
 # ------------------------------------------------------------------ running
 
+def judge(o):
+    """driver output -> None when every exception seen has a documented type, else (signature tag, sentence)"""
+    kv = dict(x.split("=", 1) for x in o.split() if "=" in x)
+    if "exc" not in kv:
+        return None
+    msg = bytes.fromhex(kv["msg"]).decode("latin-1") if kv.get("msg", "-") != "-" else ""
+    for phase, what, cls in (("import", "QPDF::createFromJSON / updateFromJSON", kv["exc"]), ("write", "QPDFWriter::write after the import", kv["write"]),
+                             ("walk", "getAllObjects / isStream after the import", kv["streams"][1:] if kv["streams"].startswith("!") else "none")):
+        if cls not in ALLOWED and cls != "skipped":
+            name = {"logic": "std::logic_error", "bad_alloc": "std::bad_alloc", "other": "an undocumented std::exception", "unknown": "a non-standard exception"}.get(cls, cls)
+            return ("%s:%s:%s" % (phase, cls, re.sub(r"[^A-Za-z0-9:]+", "_", msg)[:70]),
+                    "internal: %s leaves %s (documented: QPDFExc / std::runtime_error): %s" % (name, what, msg[:200]))
+    return None
+
+
 def run_part(chk, quick, asan_env):
     rng = chk.rng
     wd = os.path.join(common.BUILD, "work", "C04", "json")
@@ -381,15 +409,13 @@ def run_part(chk, quick, asan_env):
         mw = mo.split()
         mkv = dict(x.split("=", 1) for x in mw[1:])
         cats[mode + ":" + mw[0]] = cats.get(mode + ":" + mw[0], 0) + 1
-        bad = [x for x in (kv["exc"], kv["write"]) if x not in ALLOWED and x != "skipped"]
-        if bad or kv["streams"].startswith("!"):
+        j = judge(o)
+        if j:
             p = save("a-%d.json" % k, t)
-            msg = bytes.fromhex(kv["msg"]).decode("latin-1") if kv["msg"] != "-" else ""
-            fails.append(({"kind": "json", "tag": tag + "/" + mode}, p, "internal: %s leaves %s (documented: QPDFExc / std::runtime_error): %s" % (
-                {"logic": "std::logic_error", "bad_alloc": "std::bad_alloc", "other": "an undocumented std::exception", "unknown": "a non-standard exception"}.get(bad[0] if bad else "", "an exception"),
-                ("QPDF::createFromJSON" if mode == "c" else "QPDF::updateFromJSON") if kv["exc"] not in ALLOWED else "QPDFWriter::write / the object walk after the import",
-                msg[:200]), (["--json-input" if mode == "c" else "--update-from-json"], None, t[:600].decode("latin-1"))))
-            continue
+            fails.append(({"kind": "json", "tag": j[0]}, p, j[1] + "   [document `%s`, mode %s]" % (tag, mode),
+                          (["--json-input" if mode == "c" else "--update-from-json"], None, t[:600].decode("latin-1"))))
+            if kv["exc"] not in ALLOWED:
+                continue
         got = "%s refused=%s" % (kv["exc"], kv["refused"])
         exp = "%s refused=%s" % (mw[0], mkv["refused"])
         if kv["exc"] == "none":
@@ -414,22 +440,21 @@ def run_part(chk, quick, asan_env):
         hcats[tag.split("-")[0] + ":" + kv["exc"]] = hcats.get(tag.split("-")[0] + ":" + kv["exc"], 0) + 1
         if kv["exc"] != "none":
             nontriv.add(t)
-        bad = [x for x in (kv["exc"], kv["write"]) if x not in ALLOWED and x != "skipped"]
-        if bad or kv["streams"].startswith("!"):
+        j = judge(o)
+        if j:
             p = save("b-%d.json" % k, t)
-            msg = bytes.fromhex(kv["msg"]).decode("latin-1") if kv["msg"] != "-" else ""
-            fails.append(({"kind": "json", "tag": tag + "/" + mode}, p, "internal: an exception of type %s leaves %s (documented: QPDFExc / std::runtime_error): %s" % (
-                bad[0] if bad else kv["streams"], "the import" if kv["exc"] not in ALLOWED else "QPDFWriter::write / the object walk after the import", msg[:200]),
-                (["--json-input" if mode == "c" else "--update-from-json"], None, t[:600].decode("latin-1"))))
+            fails.append(({"kind": "json", "tag": j[0]}, p, j[1] + "   [hostile text `%s`, mode %s]" % (tag, mode),
+                          (["--json-input" if mode == "c" else "--update-from-json"], None, t[:600].decode("latin-1"))))
     chk.count("json-import-hostile", len(hl), nontriv, samples=[{"tag": hostile[0][0], "text": hostile[0][2][:120].decode("latin-1")}])
     chk.cov["parts"]["json-import-hostile"]["outcome_categories"] = hcats
     step = 8 if quick else 4
     al = [l for k, l in enumerate(dl) if docs[k][0] != "random" or k % step == 0] + hl[::step]
     aouts = common.run_lines(drv_asan, al, shards=4, env=asan_env)
     for l, o in zip(al, aouts):
-        if o.startswith("?crashed") or o.startswith("!") or "exc=logic" in o or "write=logic" in o:
+        j = ("asan-driver", "internal: createFromJSON / updateFromJSON under ASan+UBSan: " + o[:200]) if o.startswith(("?", "!")) else judge(o)
+        if j:
             p = save("asan-%d.txt" % len(fails), (l + "\n").encode())
-            fails.append(({"kind": "json", "tag": "asan-driver"}, p, "internal: createFromJSON / updateFromJSON under ASan+UBSan: %s (driver line in `input`)" % o[:200], None))
+            fails.append(({"kind": "json", "tag": j[0]}, p, j[1] + "   [ASan+UBSan driver, line in `input`]", None))
     chk.count("json-import-asan", len(al), ())
 
     # ---- CLI (ASan+UBSan build): the aimed documents and a sample of both families
@@ -449,7 +474,7 @@ def run_part(chk, quick, asan_env):
             why = "hang: CPU / output limit"
         elif rc < 0 or rc >= 128 or rc in (98, 99) or c04guards.SAN_RE.search(se):
             why = "signal / sanitizer report rc=%d" % rc
-        elif c04guards.INTERNAL_RE.search(se) or b"replaceObject called with" in se:
+        elif c04guards.INTERNAL_RE.search(se):
             why = "internal: the CLI reports a logic / internal error"
         elif not c04guards.exit_class_ok(rc, se):
             why = "exit status %d does not match the messages" % rc
